@@ -184,6 +184,8 @@ class World(DuoWorld):
             if op is not None and op.reply == "error-bare":
                 # an exception without arguments (a failed assert, a bare ApplicationError)
                 raise ApplicationError("com.secret.error" if proc.startswith("com.secret") else "com.public.error")
+            if op is not None and op.reply == "error-plain":
+                raise RuntimeError("ERR-" + op.tok)
             if op is not None and op.reply == "error":
                 raise ApplicationError("com.secret.error" if proc.startswith("com.secret") else "com.public.error", "ERR-" + op.tok, why="W-" + op.tok)
             return "RES-" + (op.tok if op else "?")
@@ -318,6 +320,10 @@ class World(DuoWorld):
         op.reply = "error" if (direction == "error" or (not flip and op.kind == "call" and ch.flag("endpoint-raises", 0.35))) else "ok"
         if op.reply == "error" and not flip and ch.flag("exception-without-arguments", 0.3):
             op.reply = "error-bare"
+        elif op.reply == "error" and not flip and ch.flag("ordinary-exception", 0.3):
+            # not an ApplicationError: the library reports it under its own URI (wamp.error.runtime_error) - an error
+            # URI like any other for the keyring (a default key covers it)
+            op.reply = "error-plain"
         op.args = [op.tok, 42]
         op.kwargs = {"k": "KW-" + op.tok}
         if not flip and ch.flag("nested-payload", 0.4):
@@ -591,6 +597,8 @@ class World(DuoWorld):
                 x = st[1] if st[0] == "err" else None
                 want_uri = "com.secret.error" if op.uri.startswith("com.secret") else "com.public.error"
                 want_args, want_kw = (("ERR-" + op.tok,), {"why": "W-" + op.tok}) if op.reply == "error" else ((), {})
+                if op.reply == "error-plain":
+                    want_uri, want_args, want_kw = "wamp.error.runtime_error", ("ERR-" + op.tok,), {}
                 got_kw = dict(jsonish(x.kwargs)) if isinstance(x, ApplicationError) else {}
                 tb = got_kw.pop("traceback", None)
                 if isinstance(x, ApplicationError) and (tb is not None) != bool(self.cfg["traceback"]):
